@@ -81,12 +81,16 @@ def run(ctx, known, built):
         return
     rows = load_cases(out)
     known_ids = {k["id"] for k in known}
-    # ---- property oracle on the implementation (labels of the generator)
+    # ---- property oracle on the implementation.  "obeys the rules" = the generator's label, which the
+    # correspondence run below checks against the model's glif_okb (the predicate of the theorems) on every
+    # case; class membership = the structural predicates F14/F16/F17, computed by the harness and checked
+    # against the Coq definitions on every case as well.
     hist = {}
     stale = set()
     for r in rows:
         acc = r["impl"] == "Ok"
-        key = "%s/%s/%s" % ("legal" if r["legal"] else "illegal", r["class"] or "-", "accepted" if acc else "rejected")
+        cls = [c for c in ("F14", "F16", "F17") if r[c.lower()]]
+        key = "%s/%s/%s" % ("legal" if r["legal"] else "illegal", "+".join(cls) or "-", "accepted" if acc else "rejected")
         hist[key] = hist.get(key, 0) + 1
         if r["impl"].startswith("PANIC"):
             ctx.violations.append({"id": r["id"], "xml": r["xml"], "injection": r["inj"], "implementation": r["impl"],
@@ -96,11 +100,13 @@ def run(ctx, known, built):
             if r.get("corpus") and r["class"]:
                 stale.add(r["corpus"])
             continue
-        if r["class"] and r["class"] in known_ids:
-            ctx.known_hits[r["class"]] = ctx.known_hits.get(r["class"], 0) + 1
+        # rule-obeying but rejected: excused inside F14/F17; rule-breaking but accepted: excused inside F16
+        excuse = [c for c in (("F14", "F17") if r["legal"] else ("F16",)) if r[c.lower()] and c in known_ids]
+        if excuse:
+            ctx.known_hits[excuse[0]] = ctx.known_hits.get(excuse[0], 0) + 1
             continue
         ctx.violations.append({"id": r["id"], "xml": r["xml"], "format": r["ver"], "injection": r["inj"],
-                               "obeys_rules": r["legal"], "implementation": r["impl"], "class": r["class"],
+                               "obeys_rules": r["legal"], "implementation": r["impl"], "classes": cls,
                                "demand": "rule-breaking documents are rejected, rule-obeying ones accepted"})
     # ---- correspondence: model vs implementation
     SH = 500
@@ -134,10 +140,25 @@ def run(ctx, known, built):
         ok_shards += 1
         for (idx, m) in parse_term(vals[0]):
             r = part[idx]
-            model_acc = summarize_tm(m).startswith("Ok")
-            ctx.disagreements.append({"what": "model outcome differs from Glyph::parse_raw", "id": r["id"], "xml": r["xml"],
-                                      "injection": r["inj"], "model": summarize_tm(m), "implementation": r["impl"]})
-            _ = model_acc
+            try:
+                res, flags = m[1][0], [x[1] for x in m[1][1][1]]
+            except Exception:
+                res, flags = m, []
+            mres = summarize_tm(res)
+            hflags = [int(r["legal"]), int(r["f14"]), int(r["f16"]), int(r["f17"])]
+            if flags != hflags:
+                ctx.disagreements.append({"what": "rule predicate / class predicates: Coq and harness differ "
+                                                  "[obeys rules, F14, F16, F17]", "id": r["id"], "xml": r["xml"],
+                                          "injection": r["inj"], "coq": flags, "harness": hflags})
+            if mres.split("(")[0] != r["impl"].split(" ")[0] or (mres.startswith("Err") and mres[4:-1] not in r["impl"]) or flags == hflags:
+                ctx.disagreements.append({"what": "model outcome differs from Glyph::parse_raw", "id": r["id"], "xml": r["xml"],
+                                          "injection": r["inj"], "model": mres, "implementation": r["impl"]})
+                # by C12_sound, outside F16 the model accepts only rule-obeying documents: an implementation
+                # that accepts where the model rejects a rule-breaking document violates the property
+                if r["impl"] == "Ok" and not r["legal"] and not r["f16"]:
+                    ctx.violations.append({"id": r["id"], "xml": r["xml"], "format": r["ver"], "injection": r["inj"],
+                                           "obeys_rules": False, "implementation": r["impl"], "model": mres,
+                                           "demand": "rule-breaking documents are rejected"})
     ctx.obligation("correspondence:C12 (%d shards)" % len(files), ok_shards == len(files) and not ctx.disagreements,
                    "model and implementation differ")
     nontrivial = len({r["xml"] for r in rows if r["inj"] != "none"})
